@@ -132,16 +132,17 @@ class PyTorchModelWrapper:
             )
         if injection == "insertion":
             # This does NOT bypass the weights based unpickler
-            pickled = self.pickled
-
-            pickled.insert_python_exec(payload)
-
             # Create a new ZIP file to store the modified data
             with zipfile.ZipFile(output_path, "w") as new_zip_ref:
                 with zipfile.ZipFile(self.path, "r") as zip_ref:
                     for item in zip_ref.infolist():
                         with zip_ref.open(item.filename) as entry:
                             if item.filename.endswith("/data.pkl"):
+                                # Inject into the model pickle of the archive being copied, not into
+                                # the cached `self.pickled`: that object would keep this payload for
+                                # the next call, and may predate the file's last change
+                                pickled = Pickled.load(entry)
+                                pickled.insert_python_exec(payload)
                                 new_zip_ref.writestr(item.filename, pickled.dumps())
                             else:
                                 new_zip_ref.writestr(item.filename, entry.read())
@@ -151,6 +152,7 @@ class PyTorchModelWrapper:
         if overwrite is True:
             # Rename the new file to replace the original file
             Path(output_path).rename(self.path)
+            self._pickled = None  # the file at self.path changed: parse it again on next use
             output_path = Path(self.output_path)
             if output_path.exists():
                 os.remove(output_path)
